@@ -162,3 +162,17 @@ def check_radar_stream(rng, tier, report):
     got = airplanes_rows(r.screen.text())
     report("radar/retry-keeps-aircraft", st is None and got == want and f.accepted == 2, {"status": st, "rows": got, "expected": want, "accepted": f.accepted})
     r.send(b"q"); r.pump(0.8); r.kill(); f.stop()
+    # the connection drops in the middle of a line: the fragment is not a complete line and must not swallow the first
+    # complete line of the next connection (every complete line exactly once, across reconnects)
+    addr = int(sorted(want)[0], 16) if want else 0xABCDEF
+    extra = fline(gentrack.adsb(addr, gentrack.me_ident(4, 0, "DROPPED")))
+    first = fline(gentrack.adsb(addr, gentrack.me_ident(4, 0, "FIRST")))       # the first complete line of the new connection: a counted frame
+    want2 = expected_counts(lines[:half] + [first] + lines[half:])
+    for cut in ((9,) if tier == "quick" else (1, 9, len(extra) - 1)):
+        script = [("send", b"".join(lines[:half]) + extra[:cut]), ("sleep", 1.2), ("close",), ("sleep", 0.5), ("accept",), ("send", first + b"".join(lines[half:])), ("sleep", 2.0)]
+        r, f, snap, st = run_radar_feed(script, args=("--retry-tcp",), wait=0.8)
+        r.send(b"\x1bOR"); r.pump(0.6)
+        got = airplanes_rows(r.screen.text())
+        report("radar/retry-midline-drop-%d" % cut, st is None and got == want2 and f.accepted == 2, {"status": st, "rows": got, "expected": want2, "accepted": f.accepted,
+               "fragment_before_drop": extra[:cut].decode()})
+        r.send(b"q"); r.pump(0.8); r.kill(); f.stop()
